@@ -66,7 +66,7 @@ def write_evidence(mod, ctx, prop, tier, seed, wall, violations, known_lines):
                 samples.append({"class": name, "case": obj} if name else obj)
     cov = {
         "evaluations": ctx.evaluations,
-        "distinct_nontrivial": len(ctx.nontrivial),
+        "distinct_nontrivial": len(ctx.nontrivial) + ctx.nontrivial_enumerated,
         "rule": mod.RULE,
         "samples": samples,
         "exhaustive": bool(ctx.exhaustive) and all(v.get("complete", False) for v in ctx.exhaustive.values())
@@ -177,7 +177,7 @@ def main(argv):
         for line in lines:
             print(line)
         print(
-            f"{prop} {tier} seed={seed}: evaluations={ctx.evaluations} distinct_nontrivial={len(ctx.nontrivial)} "
+            f"{prop} {tier} seed={seed}: evaluations={ctx.evaluations} distinct_nontrivial={len(ctx.nontrivial) + ctx.nontrivial_enumerated} "
             f"excluded_known={sum(ctx.excluded_known.values())} rejected={sum(ctx.rejected.values())} "
             f"violations={violations} wall={time.time() - t0:.1f}s"
         )
